@@ -72,7 +72,7 @@ def encodable(text, cs):
         return False
 
 
-def mkfile(cs, texts, bad_time_at=None):
+def mkfile(cs, texts, bad_time_at=None, frozen=False):
     import mido
     mf = mido.MidiFile(type=1, charset=cs)
     tr = mido.MidiTrack()
@@ -85,6 +85,16 @@ def mkfile(cs, texts, bad_time_at=None):
     if bad_time_at is not None and tr:
         k = bad_time_at % len(tr)
         tr[k] = tr[k].copy(time=0.5)
+    if frozen:
+        # immutable messages, whose encoding was already asked for once outside any file call (the default charset in force):
+        # what a file writes is still the text in the FILE's charset
+        from mido.frozen import freeze_message
+        for k in range(len(tr)):
+            tr[k] = freeze_message(tr[k])
+            try:
+                tr[k].bytes(); tr[k].hex(); hash(tr[k])
+            except Exception:  # noqa: BLE001  (text the default charset cannot hold)
+                pass
     mf.tracks.append(tr)
     return mf
 
@@ -98,11 +108,15 @@ def texts_of(mf):
     return out
 
 
-def check_roundtrip(cs, texts):
+def check_roundtrip(cs, texts, frozen=False):
     EXTRA_TEXTS[:] = [(t, t.encode(cs)) for t in texts]
     """text survives save and load with the charset; the bytes in the file are the text encoded in that charset; the charset does not leak"""
     n = 0
-    mf = mkfile(cs, texts)
+    if not frozen:
+        r, k = check_roundtrip(cs, texts, frozen=True)
+        if r is not None:
+            return (r[0], 'with frozen messages (encoded once before, outside the call): ' + r[1]), k
+    mf = mkfile(cs, texts, frozen=frozen)
     buf = io.BytesIO()
     try:
         mf.save(file=buf)
